@@ -59,7 +59,9 @@ PosCtx == [eol |-> cs.eol, ib |-> cs.ib, il |-> cs.il, ic |-> cs.ic]
 
 VisibleF(f) == Known(f.r) /\ (FullVis(f.cf) \/ Nodes[f.r].en = 1)
 
-V(prop, idx, r, why, a, b) == [p |-> prop, case |-> cs.id, i |-> idx, r |-> r, why |-> why, a |-> a, b |-> b]
+\* st: the operators of the open invocations, outermost first (the call site of the verdict)
+V(prop, idx, r, why, a, b) == [p |-> prop, case |-> cs.id, i |-> idx, r |-> r, why |-> why, a |-> a, b |-> b,
+                               st |-> [j \in 1..Len(stk) |-> OpOf(stk[j].r)]]
 If(cond, v) == IF cond THEN <<v>> ELSE <<>>
 
 \* C06: byte, line and column are a function of the consumed prefix
